@@ -394,6 +394,10 @@ def gen_c05(rnd, n, thorough=False):
                 pts = [(now - rnd.randint(0, R - 1), value(rnd, nan_ok)) for _j in range(rnd.randint(1, 12))]
                 lines.append(_many('f', ident, now, pts))
                 op = 'many'
+            elif r < 0.72:
+                # a raw dump is a read: like every read it leaves the file's bytes alone
+                lines.append("raw f %d" % rnd.randrange(k))
+                op = 'rawdump'
             elif r < 0.8:
                 lines.append("sync f")
                 op = 'sync'
